@@ -307,6 +307,92 @@ def l4_walk(tid, consts, a, rng, nsteps=45):
     return run, lines
 
 
+def full_stack_case(tid, writer, npre, ndeliver, nduring, nafter, cuts):
+    """C10 on the whole stack: two real dilating wormholes (real Connector, DilatedConnectionProtocol, Noise stand-in, mailbox
+    twin).  `writer`'s application opens a subchannel and writes npre records; ndeliver units written by the writer's end of the
+    link in use reach the peer (their acks may or may not come back); the network cuts that link; nduring more records are
+    written while there is no connection; the run is completed fairly (loss noticed, reconnect through the mailbox, new
+    connection, everything in flight delivered); nafter more records; `cuts` times over.  At rest the reader's application must
+    have every record exactly once, in order - the same InOrderOnce / Goal the scripted-L2 runs are judged by."""
+    from .dil_full import FullWorld
+    from twisted.internet import protocol as tproto
+    fw = FullWorld(variant=tid)
+    reader = "F" if writer == "L" else "L"
+    got, issued, errors = [], [], []
+    lost = []
+
+    class P(tproto.Protocol):
+        def dataReceived(self, data):
+            if self.side == reader:
+                got.append(bytes(data))
+
+        def connectionLost(self, reason=None):
+            lost.append(self.side)
+
+    def fac(side):
+        f = tproto.Factory()
+        f.buildProtocol = lambda addr: type("P_" + side, (P,), {"side": side})()
+        return f
+    fw.do(("AppDilate", "L", 0))
+    fw.do(("AppDilate", "F", 0))
+    rested = fw.run_out()
+    conn = []
+    try:
+        fw.api[reader].listener_for("p").listen(fac(reader))
+        d = fw.api[writer].connector_for("p").connect(fac(writer))
+        d.addCallbacks(conn.append, lambda f: errors.append("connect: %r" % (f.value,)))
+        fw.run_auto_timers()
+    except Exception as e:
+        errors.append("open: %r" % (e,))
+
+    def write(k):
+        for _ in range(k):
+            payload = b"rec%03d:" % len(issued) + bytes([len(issued) % 251]) * (3 + 5 * len(issued))
+            issued.append(payload)
+            try:
+                conn[0].transport.write(payload)
+            except Exception as e:
+                errors.append("write: %r" % (e,))
+        fw.run_auto_timers()
+    for round_ in range(cuts):
+        if not conn:
+            break
+        write(npre)
+        sel = fw.selected_links(writer)
+        if sel:
+            link = fw.links[sel[0]]
+            e = fw.end_of(link, writer)
+            for j in range(ndeliver):
+                if link.can_deliver(e):
+                    fw.deliver_unit(link, e)
+                # every other delivered record's ack gets back before the cut
+                if j % 2 == 0 and link.can_deliver(1 - e):
+                    fw.deliver_unit(link, 1 - e)
+            fw.do(("Cut", "-", sel[0]))
+        write(nduring)
+        rested = fw.run_out() and rested
+        write(nafter)
+        rested = fw.run_out() and rested
+    if conn:
+        try:
+            conn[0].transport.loseConnection()
+        except Exception as e:
+            errors.append("close: %r" % (e,))
+        rested = fw.run_out() and rested
+    st = fw.state()
+    internal = errors + fw.finish()
+    quiet = bool(rested and conn)
+    idx = {p: i for i, p in enumerate(issued)}
+    delivered = [idx.get(g, -1) for g in got]
+    rec = {"tid": tid, "kind": "l4", "issued": list(range(len(issued))), "delivered": delivered, "goal": quiet,
+           "internal": [x for x in internal if "NoTransition" not in x or "stopped" not in x],
+           "ends": {}, "pendingUnexpected": 0, "scids": {"L": [], "F": []}, "afterCloseOK": True,
+           "lateListen": False, "perSub": {"issued": [list(range(len(issued)))], "delivered": [delivered]},
+           "echoes": [], "echoErrors": [], "closedByOpener": 1 if conn else 0, "lostAtOpener": lost.count(writer),
+           "mgr": {n: st[n]["mgr"] for n in st}}
+    return rec
+
+
 def model_l4_delivered(st):
     return list(st["delivered"])
 
@@ -979,6 +1065,21 @@ def run(prop, tier):
                 records.append(rec)
                 meta[tid] = {"schedule": [["public-api-expected", expected, opens, listen]], "config": "public"}
             cov["public_api_cases"] = n
+        if prop == "C10":
+            # family: the same question on the whole stack (real Connector and connection selection under the Managers)
+            n = 0
+            for writer in ("L", "F"):
+                for (npre, ndeliver, nduring, nafter, cuts) in ((2, 0, 0, 0, 1), (3, 2, 1, 1, 1), (1, 1, 2, 0, 2), (0, 0, 2, 1, 1), (3, 3, 0, 2, 2),
+                                                                (4, 1, 3, 0, 1)) if quick else \
+                        [(a, b, c, d, e) for a in (0, 1, 3) for b in (0, 1, 3) for c in (0, 2) for d in (0, 1) for e in (1, 2) if a + c + d > 0]:
+                    tid += 1
+                    n += 1
+                    rec = full_stack_case(tid, writer, npre, ndeliver, nduring, nafter, cuts)
+                    rec["origin"], rec["config"] = "family:full-stack", "full"
+                    records.append(rec)
+                    meta[tid] = {"schedule": [["full-stack", writer, npre, ndeliver, nduring, nafter, cuts]], "direction": writer,
+                                 "real_l2": True, "late_listen": None}
+            cov["full_stack_cases"] = n
         if prop == "C10":
             cov["echo"] = {"runs_with_answers": sum(1 for r_ in records if any(x["got"] for x in r_.get("echoes", []))),
                            "answers_received": sum(len(x["got"]) for r_ in records for x in r_.get("echoes", []))}
